@@ -154,11 +154,14 @@ func (o *Operations) Delete(name string) error {
 		},
 
 		func(hdr *config.Header) {
-			o.onHeader(&config.HeaderEvent{
-				Type:    config.HeaderEventTypeDelete,
-				Indexed: true,
-				Header:  hdr,
-			})
+			// The callback is optional here as well
+			if o.onHeader != nil {
+				o.onHeader(&config.HeaderEvent{
+					Type:    config.HeaderEventTypeDelete,
+					Indexed: true,
+					Header:  hdr,
+				})
+			}
 		},
 	)
 }
